@@ -75,7 +75,9 @@ func (o OneOfSchema[KeyType]) ReflectedType() reflect.Type {
 //nolint:funlen
 func (o OneOfSchema[KeyType]) UnserializeType(data any) (result any, err error) {
 	if data == nil {
-		return nil, fmt.Errorf("bug: data is nil in OneOfSchema UnserializeType")
+		// A ConstraintError, like every other rejected value, so that the containers on the way out can say
+		// where the nil was found.
+		return nil, &ConstraintError{Message: "bug: data is nil in OneOfSchema UnserializeType"}
 	}
 	reflectedValue := reflect.ValueOf(data)
 	if reflectedValue.Kind() != reflect.Map {
